@@ -829,10 +829,14 @@ pub fn fam_micro(rng: &mut Rng) -> Cfg {
     let mut c = Cfg::new("micro");
     let top = c.nt("Top");
     c.start = top;
-    let k = rng.range(2, 4);
+    let k = if rng.chance(1, 4) { 1 } else { rng.range(2, 4) };
     for i in 0..k {
         let tag = c.term(&format!("Tag{}", i));
         let st = micro_pattern(&mut c, rng, i);
+        if k == 1 {
+            c.rule(top, vec![N(st)]);
+            break;
+        }
         if rng.chance(1, 5) {
             // no tag: the pattern sits directly under the start symbol
             c.rule(top, vec![N(st)]);
@@ -901,13 +905,31 @@ fn micro_pattern(c: &mut Cfg, rng: &mut Rng, i: usize) -> usize {
             // the same rule at two dot positions of one state
             let b = c.nt(&format!("Rep{}", i));
             let (x, y, z) = (t(c, "Rx"), t(c, "Ry"), t(c, "Rz"));
-            c.rule(a, vec![N(b)]);
-            c.rule(a, vec![T(x), N(b)]);
+            // each occurrence of the repeated nonterminal is followed by nothing (so that it
+            // inherits the context's lookahead, end of input at the top) or by a token of its own
+            let mut r1 = vec![N(b)];
+            let mut r2 = vec![T(x), N(b)];
             if rng.chance(1, 2) {
-                c.rule(b, vec![T(x), T(y), T(z)]);
-            } else {
-                c.rule(b, vec![T(x), T(x), T(y)]);
-                c.rule(a, vec![T(x), T(x), N(b), T(z)]);
+                let f = t(c, "Fa");
+                r1.push(T(f));
+            }
+            if rng.chance(1, 3) {
+                let f = t(c, "Fb");
+                r2.push(T(f));
+            }
+            c.rule(a, r1);
+            c.rule(a, r2);
+            match rng.below(3) {
+                0 => c.rule(b, vec![T(x), T(y), T(z)]),
+                1 => {
+                    let inner = c.nt(&format!("RepIn{}", i));
+                    c.rule(b, vec![T(x), N(inner)]);
+                    c.rule(inner, vec![T(y)]);
+                }
+                _ => {
+                    c.rule(b, vec![T(x), T(x), T(y)]);
+                    c.rule(a, vec![T(x), T(x), N(b), T(z)]);
+                }
             }
         }
         5 => {
@@ -1147,6 +1169,25 @@ fn shuffle_declarations(c: &mut Cfg, rng: &mut Rng) {
     }
     if rng.chance(1, 2) {
         rng.shuffle(&mut c.rules);
+    }
+    // the declaration order of the terminals (their column in the tables, and which one is
+    // "the first terminal") is a dimension of its own
+    if rng.chance(1, 2) && c.terms.len() > 1 {
+        let t = c.terms.len();
+        let mut perm: Vec<usize> = (0..t).collect();
+        rng.shuffle(&mut perm);
+        let mut inv = vec![0usize; t];
+        for (new, old) in perm.iter().enumerate() {
+            inv[*old] = new;
+        }
+        c.terms = perm.iter().map(|o| c.terms[*o].clone()).collect();
+        for r in c.rules.iter_mut() {
+            for s in r.1.iter_mut() {
+                if let T(i) = s {
+                    *i = inv[*i];
+                }
+            }
+        }
     }
 }
 
